@@ -99,3 +99,88 @@ func zzC12TLS12ProcessServerHello() {
 		verifAssert(len(sh.secureRenegotiation) == 0, "initial-handshake-renegotiation-info-empty")
 	}
 }
+
+//verif:harness C12 checked_offer_is_the_wire_offer unwind=4000 instrs=600000000 paths=60000 wall=900
+//verif:stub (*math/rand.Rand).Shuffle zzStubShuffle
+//verif:expect end
+//verif:doc Glue between the decision kernels above (which check the server's choice against the client's internal hello state) and the property (which speaks of the on-wire ClientHello): for every predefined parrot with all randomness symbolic, the internal state the kernels consult - cipher suites, compression methods, session id, supported groups, signature algorithms, ALPN protocols, key-share groups and keys, supported versions, PSK modes, certificate-compression algorithms - equals, element for element, what the strict reference parser reads from the bytes on the wire (for every such extension that is on the wire).
+func zzC12CheckedOfferIsTheWireOffer() {
+	p := zzChooseParrot()
+	cfg := zzConfig("example.com")
+	cfg.OmitEmptyPsk = true
+	uc, _, err := zzBuild(p.id, cfg)
+	if err != nil {
+		verifReach("end")
+		return
+	}
+	h, why := zzRefParseClientHello(uc.HandshakeState.Hello.Raw)
+	verifAssertClass(why == "", "hello-parses-strictly", p.name+":"+why)
+	if why != "" {
+		return
+	}
+	hello := uc.HandshakeState.Hello.getPrivatePtr()
+	eqU16 := func(a []uint16, b []uint16) bool {
+		if len(a) != len(b) {
+			return false
+		}
+		ok := true
+		for i := range a {
+			ok = verifAnd(ok, a[i] == b[i])
+		}
+		return ok
+	}
+	verifAssertClass(eqU16(hello.cipherSuites, h.suites), "state-suites-are-wire-suites", p.name)
+	verifAssertClass(zzBytesEq(hello.compressionMethods, h.compression), "state-compression-is-wire-compression", p.name)
+	verifAssertClass(zzBytesEq(hello.sessionId, h.sessionID), "state-session-id-is-wire-session-id", p.name)
+	if b, ok := h.ext(10); ok {
+		w, _ := zzRefU16ListBody(b, 2)
+		var s []uint16
+		for _, c := range hello.supportedCurves {
+			s = append(s, uint16(c))
+		}
+		verifAssertClass(eqU16(s, w), "state-groups-are-wire-groups", p.name)
+	}
+	if b, ok := h.ext(13); ok {
+		w, _ := zzRefU16ListBody(b, 2)
+		var s []uint16
+		for _, c := range hello.supportedSignatureAlgorithms {
+			s = append(s, uint16(c))
+		}
+		verifAssertClass(eqU16(s, w), "state-sigalgs-are-wire-sigalgs", p.name)
+	}
+	if b, ok := h.ext(16); ok {
+		verifAssertClass(zzBytesEq(zzVec16(zzProtoEnc(hello.alpnProtocols)), b), "state-alpn-is-wire-alpn", p.name)
+	} else {
+		verifAssertClass(len(hello.alpnProtocols) == 0, "state-alpn-is-wire-alpn", p.name)
+	}
+	if b, ok := h.ext(51); ok {
+		gs, _, ks, okk := zzKeyShareEntries(b)
+		same := okk && len(gs) == len(hello.keyShares)
+		if same {
+			for i := range gs {
+				same = verifAnd(same, gs[i] == uint16(hello.keyShares[i].group))
+				same = verifAnd(same, zzBytesEq(ks[i], hello.keyShares[i].data))
+			}
+		}
+		verifAssertClass(same, "state-key-shares-are-wire-key-shares", p.name)
+	} else {
+		verifAssertClass(len(hello.keyShares) == 0, "state-key-shares-are-wire-key-shares", p.name)
+	}
+	if b, ok := h.ext(43); ok {
+		w, _ := zzRefU16ListBody(b, 1)
+		verifAssertClass(eqU16(hello.supportedVersions, w), "state-versions-are-wire-versions", p.name)
+	}
+	if b, ok := h.ext(45); ok && len(b) >= 1 {
+		verifAssertClass(zzBytesEq(hello.pskModes, b[1:]), "state-psk-modes-are-wire-psk-modes", p.name)
+	}
+	if b, ok := h.ext(27); ok && len(b) >= 1 {
+		var s []byte
+		for _, a := range uc.certCompressionAlgs {
+			s = append(s, byte(a>>8), byte(a))
+		}
+		verifAssertClass(zzBytesEq(s, b[1:]), "state-cert-compression-is-wire-cert-compression", p.name)
+	} else {
+		verifAssertClass(len(uc.certCompressionAlgs) == 0, "state-cert-compression-is-wire-cert-compression", p.name)
+	}
+	verifReach("end")
+}
